@@ -22,6 +22,11 @@ def invalid_variants(rng: Rng, spec, cfg):
     v = clone(); v['encapsulee'] = ['No', 'Such', 'Component']; v['fault'] = 'unknown-encapsulee'; out.append(v)
     itf = spec['interfaces'][0]
     v = clone(); v['encapsulee'] = itf['ns'] + [itf['name']]; v['fault'] = 'non-component-encapsulee'; out.append(v)
+    if len(cfg['encapsulee']) >= 2:
+        # a name that is right but not fully qualified (users type these): whatever the builder makes of it, it must
+        # make the same of it in every process and leave the configuration as it found it
+        v = clone(); v['encapsulee'] = cfg['encapsulee'][rng.between(1, len(cfg['encapsulee']) - 1):]
+        v['fault'] = 'partially-qualified-encapsulee'; out.append(v)
     v = clone()
     side = rng.choice(['provides', 'requires'])
     sem = 'sts' if v[side]['sts'] != 'NONE' else 'mts'
@@ -43,7 +48,7 @@ def invalid_variants(rng: Rng, spec, cfg):
         v = clone(); v['multiclient']['claim'] = 'NoSuchEvent'; v['fault'] = 'mc-unknown-claim'; out.append(v)
         v = clone(); v['multiclient']['grant'] = ['NoSuchValue']; v['fault'] = 'mc-unknown-grant'; out.append(v)
         v = clone(); v['multiclient']['port'] = 'nosuchport'; v['fault'] = 'mc-unknown-port'; out.append(v)
-    return rng.shuffle(out)[:4]
+    return rng.shuffle(out)[:5]
 
 
 def near_copy(rng: Rng, spec):
@@ -323,9 +328,17 @@ def _universe_worker(job):
             small = shrink('C12', universe, refs, [ops], v['class'])
             if small is None:
                 small = shrink('C12', universe, refs, done, v['class'])
-            if small is None:
-                raise RuntimeError(f'universe {u} history {h}: violation {v["class"]} does not reproduce in a fresh interpreter')
-            final = run_in_fresh_process('C12', universe, refs, small)
+            final = run_in_fresh_process('C12', universe, refs, small) if small is not None else None
+            if final is None:
+                # The real library returned a wrong result here, in this process, for exactly the recorded calls, but it
+                # does not do so again in fresh interpreters: its behaviour depends on process state that the calls do
+                # not determine (object addresses, allocator reuse, ...).  That dependence is itself what the property
+                # excludes, so it is reported - flagged, with everything this process executed as the replay.
+                violation = {'class': v['class'], 'detail': v['detail'] + ' [observed in the exploring process; did not recur in '
+                             'fresh interpreters: the tree under test depends on process state outside the recorded calls]',
+                             'replay': {'world': 'B', 'check': 'C12', 'universe': universe, 'histories': done,
+                                        'reproducible': False, 'observed': v}}
+                break
             violation = {'class': final['class'], 'detail': final['detail'],
                          'replay': {'world': 'B', 'check': 'C12', 'universe': universe, 'histories': small}}
             break
@@ -385,9 +398,25 @@ def replay(path):
     rp = json.load(open(path))
     refs = compute_refs(rp['universe'])
     v = run_in_fresh_process('C12', rp['universe'], refs, rp['histories'])
+    if v is None and rp.get('reproducible') is False:
+        # recorded as dependent on process state: re-create the exploring conditions (forked child of this process,
+        # all histories in order) - the closest an address-dependent behaviour can be approached
+        v = engine.run_isolated(_replay_in_fork, {'universe': rp['universe'], 'refs': refs, 'histories': rp['histories']})
+        if v is None:
+            print(f"replay {path}: the recorded violation (class={rp['observed']['class']}) was flagged as not reproducible when it "
+                  'was found and did not recur in this execution either')
     if v:
         print(f"  found class={v['class']} detail={v['detail']}")
         print(f'VIOLATION property=C12 replay={path}')
         return engine.EXIT_VIOLATION
     print(f'replay {path}: property held')
     return engine.EXIT_OK
+
+
+def _replay_in_fork(job):
+    found = None
+    for ops in job['histories']:
+        v = run_histories(job['universe'], job['refs'], [ops], {})
+        if v and found is None:
+            found = v
+    return found
